@@ -263,8 +263,8 @@ impl<L: Language, N: Analysis<L>> EGraph<L, N> {
                 #[allow(unused)]
                 let (a, b, proof) = self.pc_congruence(&pc1, &pc2);
 
-                // or is it the opposite direction? (flip a with b)
-                let perm = a.m.compose(&b.m.inverse());
+                // `proof` shows a = b, i.e. id[identity] = id[b.m * a.m^-1].
+                let perm = b.m.compose(&a.m.inverse());
 
                 let proven_perm = ProvenPerm {
                     elem: perm,
